@@ -65,3 +65,10 @@ CHECKS = [
 ]
 
 VALIDATE_LAYOUT_PRIMS = True  # [V] the layout primitive contracts are sampled against real torch on every run
+
+
+def extra_checks():
+    """'every requested .grad field is created / added to' is a statement about backward(): its contract (C01.backward.post.
+    requested / frame) is an obligation of this property as well.  Evaluated lazily by the runner (C01 imports this module's checks)."""
+    from . import C01
+    return [c for c in C01.CHECKS if c.name == "backward"]
